@@ -19,6 +19,9 @@ MANIFEST = dict(
          "(for the code with the entry-point reset and abandoned-scan fixes; the 4.5.2 code is refuted by kernel-checked witnesses F6/F7). "
          "The model is tied to the code by random histories run on the real scanner and on the compiled model (exact trace equality), "
          "each call also replayed on a fresh real scanner; leaks by LSan after destroying the scanner at the end of every (prefix) history. "
+         "Histories also contain yr_scanner_set_flags with every flag combination and yr_scanner_scan_proc (own child process, or a pid that "
+         "cannot be attached); settings_survive proves that only set_* calls change the settings, and the fresh scanner of the comparison "
+         "gets the settings last given. Rule sets use every place-dependent string operator and regexp strings. "
          "Sampled only: the correspondence model<->C (histories, rule sets, buffers are generated, not exhaustive).",
     design_ref="DESIGN.md §4 D10, §5 C10",
     note=core.TB + "String matching / condition evaluation / PE-ELF parsing are parameters of the model; in the tie they are instantiated "
@@ -27,7 +30,8 @@ MANIFEST = dict(
          "external variables (C20) and profiling are outside the model.")
 
 MAXM = 5
-FLAGS = [0, 0, 8, 16, 24]
+FLAGS = [0, 0, 8, 16, 24]          # report flags only (C13)
+ALLFLAGS = [0, 0, 8, 16, 24] + list(range(32))   # every combination of FAST_MODE, PROCESS_MEMORY, NO_TRYCATCH, REPORT_*
 
 
 def build_tag(base):
@@ -67,7 +71,7 @@ def gen_pool(r, bomb=False):
 def gen_ruleset(r, pool, bomb=False, pad=None):
     """pad: None | 'strings' | 'rules' | 'ns9' | 'ns65' — filler strings / rules / namespaces in FRONT of everything else, so that
     every string / rule / namespace that matters has an index beyond the first word (and byte) of the scanner's bitmaps and arrays"""
-    eps = sorted({sl.entry_point_offset(i.data) for i in pool} - {None})
+    eps = sorted(({sl.entry_point_offset(i.data) for i in pool} | {sl.entry_point_address(i.data, 0) for i in pool}) - {None})
     sizes = sorted({len(i.data) for i in pool})
     pes = sorted({sl.pe_module_field(i.data) for i in pool} - {None})
     elfs = sorted({sl.elf_module_field(i.data) for i in pool} - {None})
@@ -109,15 +113,17 @@ def gen_ruleset(r, pool, bomb=False, pad=None):
     if r.random() < 0.8:
         s_r = sid(); add(r.choice([("str", s_r), ("cnt", s_r, 2)]), strings=[sl.Rx("xy+z")])
     if r.random() < 0.6:
-        s_r = sid(); add(("str", s_r), strings=[sl.Rx("w[a-z]{2,4}d")])
+        s_r = sid(); add(("str", s_r), strings=[sl.Rx("w[a-ce-z]{2,4}d")])
     if bomb:
         s_r = sid(); add(("str", s_r), strings=[sl.Bomb()])
     add(("epdef",))
-    for e in eps[:3]:
+    for e in r.sample(eps, min(4, len(eps))):
         add(("epeq", e))
     for n in r.sample(sizes, min(2, len(sizes))):
         add(("fseq", n))
-    txt = [i for i in pool if i.data and not i.data.startswith(b"MZ") and not i.data.startswith(b"\x7fELF")]
+    txt = [i for i in pool if i.data and not i.data.startswith(b"MZ") and not i.data.startswith(b"\x7fELF") and len(i.data) < 1000]
+    if txt and r.random() < 0.8:
+        place_rules(r, add, sid, txt)
     add(("rd", 1, 0, 0x4D))
     if txt:
         t = r.choice(txt).data
@@ -161,6 +167,11 @@ def gen_ops(r, inputs, timeout):
     multi = [i for i, x in enumerate(inputs) if len(x.parts) > 1]
     nscans = r.randint(2, 7)
     for _ in range(nscans):
+        # between scans (never between a suspended scan and its resumption): new flags, a process scan
+        if r.random() < 0.18:
+            ops.append("F/%d" % r.choice(ALLFLAGS + [2, 2, 3, 10, 18]))
+        if r.random() < 0.12:
+            ops.append("P/%s/%s" % (r.choice("ccx"), r.choice(["-", "-", "a0", "e0", "a2"])))
         u = r.random()
         inp = r.randrange(len(inputs))
         nb = len(inputs[inp].parts)
@@ -196,7 +207,50 @@ def gen_ops(r, inputs, timeout):
             v = r.random()
             nc = nn if v < 0.6 else r.randint(0, nn)      # resumed to the end, or abandoned somewhere
             ops += ["C"] * nc
-    return ops[:20]
+    while len(ops) > 20:
+        ops.pop()
+    return ops
+
+
+def place_rules(r, add, sid, texts):
+    """rules with the place-dependent string operators, built around real occurrences in one of the text inputs"""
+    t = r.choice(texts).data
+    if len(t) < 6:
+        return
+
+    def pick():
+        ln = r.randint(3, 5)
+        p = r.randrange(0, len(t) - ln + 1)
+        sub = t[p:p + ln]
+        occ = [o for o, _ in sl.find_literal(sub, t)]
+        return sub, occ
+    for _ in range(r.randint(2, 4)):
+        k = r.choice(["in", "off", "cin", "len", "ofat", "ofin", "forat", "forin"])
+        a, oa = pick()
+        p = r.choice(oa)
+        lo, hi = max(0, p - r.randint(0, 3)), p + r.randint(0, 3)
+        s1 = sid()
+        if k == "in":
+            add(("in", s1, lo, hi), strings=[a])
+        elif k == "off":
+            i = r.randint(1, min(len(oa), 3))
+            add(("off", s1, i, oa[i - 1]), strings=[a])
+        elif k == "cin":
+            add(("cin", s1, lo, hi, sum(1 for o in oa if lo <= o <= hi)), strings=[a])
+        elif k == "len":
+            add(("len", s1, r.randint(1, min(len(oa), 2)), len(a)), strings=[a])
+        else:
+            b, ob = pick()
+            q = r.choice(ob)
+            ss = [s1, s1 + 1]
+            if k == "ofat":
+                add(("ofat", 1, r.choice([p, q]), ss), strings=[a, b])
+            elif k == "ofin":
+                add(("ofin", r.choice([1, 2]), min(lo, q), max(hi, q) if r.random() < 0.7 else hi, ss), strings=[a, b])
+            elif k == "forat":
+                add(("forat", r.choice([p, q]), ss), strings=[a, b])
+            else:
+                add(("forin", lo, hi, ss), strings=[a, b])
 
 
 def count_occ(data, s):
@@ -239,7 +293,7 @@ def gen_case1(r, cid):
     # yr_execute_code tests the timeout every 100 instructions: only a rule set that starts and ends with a long loop
     # makes the position of that test unobservable, so only those are combined with a timeout
     timeout = r.choice([0, 1000, 1000]) if rs.has_burn else 0
-    flags = r.choice(FLAGS)
+    flags = r.choice(ALLFLAGS)
     ops = gen_ops(r, inputs, timeout)
     return dict(id=cid, rs=rs, inputs=inputs, flags=flags, timeout=timeout, ops=ops)
 
@@ -309,7 +363,7 @@ def run_body(chk, lres, b, tier, replay):
         lines = [replay["case"]]
         cases = None
     else:
-        n = 260 if tier == "quick" else 6000
+        n = 260 if tier == "quick" else 8000
         cases = [gen_case(r, "c%d" % i) for i in range(n)]
         # "destroyed after any prefix": a share of the histories is also run cut after every call
         extra = []
@@ -327,7 +381,7 @@ def run_body(chk, lres, b, tier, replay):
                                      "max_namespaces": max(c["rs"].rules[-1]["ns"] + 1 for c in cases)}
         sl.describe(b["h_hist"], [c["rs"] for c in cases], core)
         lines = corpus_lines("C10") + lines_of(cases, variant)
-    impl, rc, err = core.run_parallel([b["h_hist"]], lines)
+    impl, rc, err = core.run_parallel([b["h_hist"]], lines, timeout=3000)
     if rc != 0 or len(impl) != len(lines):
         chk.violation("harness_crash.json", {"kind": "harness-crash-or-sanitizer", "rc": rc, "stderr": err, "engine": "hist",
                                               "harness": "h_hist", "cases": lines[:20]})
@@ -406,6 +460,10 @@ def run_body(chk, lres, b, tier, replay):
             seen = set()
             for o, t in zip(ops, trs):
                 if t == "skip":
+                    continue
+                if o[0] in "FP":
+                    key = "set_flags" if o[0] == "F" else "scan_proc_" + t
+                    kinds[key] = kinds.get(key, 0) + 1
                     continue
                 ncalls += 1
                 code = t.rsplit("rc=", 1)[-1]
